@@ -10,8 +10,8 @@ Require Import Htp.Proof.PSegFold Htp.Proof.PSegPipe Htp.Proof.PTunBase.
 (* ---- the invariants ---- *)
 (* the part of the connection that does not change while one request is parsed: the transactions before the current one
    (request side complete, no response offered so far) and the connection flags *)
-(* connection flags, out_next_tx_index and the response side of the parser while the request side works *)
-Record tg_aux := mk_tg_aux { ax_flags : N; ax_onext : nat; ax_rs : connp }.
+(* connection flags, out_next_tx_index, the response side of the parser and in_content_length while the request side works *)
+Record tg_aux := mk_tg_aux { ax_flags : N; ax_onext : nat; ax_rs : connp; ax_cl : Z }.
 Record tg_world := mk_tg_world { gw_done : list (option tx); gw_aux : tg_aux }.
 Definition tg_w0 (a : tg_aux) : tg_world := mk_tg_world [] a.
 Definition tg_settx (w : tg_world) (t : tx) (c : connp) : connp := c <| c_txs := gw_done w ++ [Some t] |>.
@@ -35,7 +35,7 @@ Record tg_cinw (w : tg_world) (c : connp) (d : bytes) (rd : nat) (p : bytes) (hd
   gi_txs : c_txs c = gw_done w ++ [Some t];
   gi_shift : c_txs_shifted c = 0%nat;
   gi_flags : c_conn_flags c = ax_flags (gw_aux w);
-  gi_onext : c_out_next_tx_index c = ax_onext (gw_aux w) /\ tn_rs c = ax_rs (gw_aux w) }.
+  gi_onext : c_out_next_tx_index c = ax_onext (gw_aux w) /\ tn_rs c = ax_rs (gw_aux w) /\ c_in_content_length c = ax_cl (gw_aux w) }.
 
 (* between two calls of htp_connp_req_data *)
 Record tg_midw (w : tg_world) (c : connp) (p : bytes) (hdr : option bytes) (st : req_state) (rh : option nat) (t : tx) : Prop := mk_tg_mid {
@@ -49,7 +49,7 @@ Record tg_midw (w : tg_world) (c : connp) (p : bytes) (hdr : option bytes) (st :
   gm_txs : c_txs c = gw_done w ++ [Some t];
   gm_shift : c_txs_shifted c = 0%nat;
   gm_flags : c_conn_flags c = ax_flags (gw_aux w);
-  gm_onext : c_out_next_tx_index c = ax_onext (gw_aux w) /\ tn_rs c = ax_rs (gw_aux w) }.
+  gm_onext : c_out_next_tx_index c = ax_onext (gw_aux w) /\ tn_rs c = ax_rs (gw_aux w) /\ c_in_content_length c = ax_cl (gw_aux w) }.
 Arguments gi_status {w}. Arguments gi_state {w}. Arguments gi_prev {w}. Arguments gi_data {w}. Arguments gi_len {w}. Arguments gi_read {w}.
 Arguments gi_rd {w}. Arguments gi_cons {w}. Arguments gi_seen {w}. Arguments gi_hdr {w}. Arguments gi_rh {w}. Arguments gi_rcv {w}.
 Arguments gi_tx {w}. Arguments gi_txs {w}. Arguments gi_shift {w}. Arguments gi_flags {w}. Arguments gi_onext {w}.
@@ -68,9 +68,9 @@ Proof. intros H. apply (sg_slot_at c _ t (gi_txs _ _ _ _ _ _ _ _ _ H) (gi_shift 
 Lemma tg_cin_ext c c' d rd p hdr st prev rh t : tg_cin c d rd p hdr st prev rh t ->
   c_in_status c' = c_in_status c -> c_in_state c' = c_in_state c -> c_in_state_previous c' = c_in_state_previous c ->
   c_in c' = c_in c -> c_in_tx c' = c_in_tx c -> c_txs c' = c_txs c -> c_txs_shifted c' = c_txs_shifted c ->
-  c_conn_flags c' = c_conn_flags c -> c_out_next_tx_index c' = c_out_next_tx_index c -> tn_rs c' = tn_rs c ->
+  c_conn_flags c' = c_conn_flags c -> c_out_next_tx_index c' = c_out_next_tx_index c -> tn_rs c' = tn_rs c -> c_in_content_length c' = c_in_content_length c ->
   tg_cin c' d rd p hdr st prev rh t.
-Proof. intros [A1 A2 A3 A4 A5 A6 A7 A8 A9 A10 A11 A12 A13 A14 A15 A16 A17] E1 E2 E3 E4 E5 E6 E7 E8 E9 E10. constructor; rewrite ?E1, ?E2, ?E3, ?E4, ?E5, ?E6, ?E7, ?E8, ?E9, ?E10; assumption. Qed.
+Proof. intros [A1 A2 A3 A4 A5 A6 A7 A8 A9 A10 A11 A12 A13 A14 A15 A16 A17] E1 E2 E3 E4 E5 E6 E7 E8 E9 E10 E11. constructor; rewrite ?E1, ?E2, ?E3, ?E4, ?E5, ?E6, ?E7, ?E8, ?E9, ?E10, ?E11; assumption. Qed.
 Lemma tg_cin_txs c d rd p hdr st prev rh t t' : tg_cin c d rd p hdr st prev rh t -> tg_cin (tg_settx w t' c) d rd p hdr st prev rh t'.
 Proof. intros [A1 A2 A3 A4 A5 A6 A7 A8 A9 A10 A11 A12 A13 A14 A15 A16 A17]. constructor; try assumption; reflexivity. Qed.
 Lemma tg_cin_state c d rd p hdr st prev rh t st' : tg_cin c d rd p hdr st prev rh t -> tg_cin (c <| c_in_state := st' |>) d rd p hdr st' prev rh t.
